@@ -291,7 +291,7 @@ mod imp {
         match fault {
             Fault::None | Fault::VerifyReject | Fault::TrailerTooLong => complete = true,
             Fault::ErrAfterChunks(k) => {
-                s.steps = unmarked(&chunks[..*k]);
+                s.steps = unmarked(&chunks[..(*k).min(m)]);
                 s.steps.push(Step::Error("injected producer failure".into()));
             }
             Fault::ErrAtByte(d) => {
@@ -303,13 +303,19 @@ mod imp {
                 s.cut_after_responses = Some(*k);
                 complete = *k == m;
             }
+            // (a fixed k from a caller that did not look at the chunk count is clamped: highly compressible content has few chunks)
             Fault::CutNoReply(k) => {
-                s.steps = unmarked(&chunks[..*k]);
+                s.steps = unmarked(&chunks[..(*k).min(m)]);
+                s.steps.push(Step::CutNoReply);
+            }
+            Fault::CutMidFrame(k) if m == 0 => {
+                let _ = k;
                 s.steps.push(Step::CutNoReply);
             }
             Fault::CutMidFrame(k) => {
-                s.steps = unmarked(&chunks[..*k]);
-                s.steps.push(Step::CutMidFrame { bytes: chunks[*k].clone(), last: *k + 1 == m });
+                let k = (*k).min(m - 1);
+                s.steps = unmarked(&chunks[..k]);
+                s.steps.push(Step::CutMidFrame { bytes: chunks[k].clone(), last: k + 1 == m });
             }
             Fault::NoEndClose => {
                 s.steps = unmarked(&chunks);
